@@ -69,8 +69,14 @@ def mk_grid(gs):
                                  np.array(gs["table"], dtype=np.intp), fill_value=FILL, **kw)
 
 
+_DEGENERATE = []
+
+
 def _mp_norm(v):
     n = mp.sqrt(sum(a * a for a in v))
+    if n < mp.mpf("1e-6"):
+        _DEGENERATE.append(1)          # centre of (nearly) opposite corners: direction undefined
+        return (mp.mpf(1), mp.mpf(0), mp.mpf(0))
     return tuple(a / n for a in v)
 
 
@@ -81,6 +87,11 @@ class TruthData:
     (the edge list itself is read from the grid - C02 owns it).  Unit vectors, 30 digits."""
 
     def __init__(self, g, gs):
+        del _DEGENERATE[:]
+        self._build(g, gs)
+        self.degenerate = bool(_DEGENERATE)
+
+    def _build(self, g, gs):
         if gs.get("xyz_only"):
             node = [_mp_norm(tuple(mp.mpf(float(a)) for a in p)) for p in gs["xyz"]]
         else:
@@ -147,6 +158,16 @@ def refined_mesh(rng):
     return m
 
 
+def ok_in_triangle(pts, q):
+    """the triangles only carry the points; still, keep their edges well defined: no corner (nearly)
+    opposite to or on top of another corner of the same triangle"""
+    for o in pts[len(pts) - len(pts) % 3:]:
+        d = sum(a * b for a, b in zip(o, q))
+        if d < -0.9 or d > 1 - 1e-9:
+            return False
+    return True
+
+
 def bisector_mesh(rng, sd, npts=30):
     """destination whose NODES sit close to the bisector between a source element and its nearest
     neighbour of the same kind (offset 0.4% .. 10% of their separation to either side: outside the tie
@@ -170,9 +191,13 @@ def bisector_mesh(rng, sd, npts=30):
         p = [(ci[a] + cj[a]) / 2 + eps * (ci[a] - cj[a]) for a in range(3)]
         nrm = math.sqrt(sum(a * a for a in p))
         if nrm > 1e-6:
-            pts.append(tuple(a / nrm for a in p))
+            q = tuple(a / nrm for a in p)
+            if ok_in_triangle(pts, q):
+                pts.append(q)
     while len(pts) % 3:
-        pts.append(meshgen._norm((rng.gauss(0, 1), rng.gauss(0, 1), rng.gauss(0, 1))))
+        q = meshgen._norm((rng.gauss(0, 1), rng.gauss(0, 1), rng.gauss(0, 1)))
+        if ok_in_triangle(pts, q):
+            pts.append(q)
     faces = [[3 * t, 3 * t + 1, 3 * t + 2] for t in range(len(pts) // 3)]
     return meshgen.Mesh(pts, faces, False, "bisector-points")
 
@@ -471,6 +496,8 @@ def slim(c):
 
 def run_case(ck, c, src, dst, sd, dd, stats=None, model_items=None):
     """implementation + property clauses for one case; returns record for the model comparison"""
+    if getattr(sd, "degenerate", False) or getattr(dd, "degenerate", False):
+        return None                     # an element centre is geometrically undefined: not an input of the property
     n = sd.n
     kind = c["kind"]
     n_src = n[kind]
